@@ -14,11 +14,11 @@ ASSUMPTIONS = [
     "the real keeper and a real CommitStateDB after every transaction",
     "internal OLT transfers made by contract code (inner CALL with value, SELFDESTRUCT) are part of the oracle answer; the harness derives them "
     "from the semantics of its own eight tiny programs",
-    "negative gas price / negative value (only constructible by a block proposer bypassing CheckTx) are outside the generated inputs",
+    "negative OLVM gas price / value are outside the generated inputs (Validate refuses them: price < minimum fee, Amount.IsValid); negative native amounts are generated and must be refused",
     "the nonce statements about the sender assume it is not among the accounts that executed SELFDESTRUCT in the transaction (an externally "
     "owned sender has no code; preCheck rejects senders with code)",
-    "DeliverTx does not re-run Validate (signature, chain id, minimum price): that is C04's finding; here the model of deliver is faithful to it "
-    "(wrong-chain-id and zero-price transactions delivered by a proposer execute) and CheckTx acceptance is modelled separately (validate)",
+    "signature / chain-id checking (EIP-155 recovery, ed25519 verification) is abstracted to one boolean per transaction (signed over this chain's id "
+    "by the declared sender), set by the generator that built the signature; Validate's remaining checks are modelled on the ledger",
 ]
 
 # monitor clause -> text
@@ -30,6 +30,7 @@ CLAUSES = {
     5: "total OLT (accounts + fee pool) changed",
     6: "the EVM view of a balance differs from the native record",
     7: "executed although its nonce is not the account's nonce",
+    8: "executed although Validate refuses it (wrong chain id / signer, price below the minimum fee, negative amount, bad memo, ...)",
 }
 MISMATCH = {1: "verdict (code) differs", 2: "gas used differs", 3: "ledger after the transaction differs", 4: "CheckTx acceptance differs"}
 
